@@ -41,6 +41,11 @@ func ExprText(toks []string) string {
 	return sb.String()
 }
 
+var iffImports = map[string]string{
+	"FI": "module FI { namespace \"urn:fi\"; prefix fi; revision 2024-01-01; feature x; feature a; grouping gi { leaf gx { if-feature x; type string; } } }",
+	"FJ": "module FJ { namespace \"urn:fj\"; prefix fj; revision 2024-01-01; feature y; leaf jy { if-feature y; type string; } }",
+}
+
 // iffModule places the expression on a statement of the given kind; the node `probe`
 // is present in the compiled tree iff the guarded statement took effect.
 func iffModule(kind, expr string) string {
@@ -71,6 +76,10 @@ func iffModule(kind, expr string) string {
 		return head + " notification probe { " + g + " leaf nl { type string; } }\n}"
 	case "anydata":
 		return head + " anydata probe { " + g + " }\n}"
+	case "leaf-importing":
+		// the module imports modules that declare features of their own
+		return strings.Replace(head, "revision 2024-01-01;", "import FI { prefix fi; } import FJ { prefix fj; } revision 2024-01-01;", 1) +
+			" leaf probe { " + g + " type string; }\n uses fi:gi;\n}"
 	}
 	return head + "}"
 }
@@ -159,7 +168,7 @@ func execIff(c core.Case) []core.Rec {
 				res["msg"] = fmt.Sprint(r)
 			}
 		}()
-		m, err := parser.LoadModuleFromStringWithOptions(MemOpener(nil), text, parser.Options{Features: fs})
+		m, err := parser.LoadModuleFromStringWithOptions(MemOpener(iffImports), text, parser.Options{Features: fs})
 		if err != nil {
 			res["err"] = true
 			res["msg"] = err.Error()
